@@ -1107,11 +1107,11 @@ class Action:
         opath = os.environ.get(envVar, "") # old value of envVar, generally a path of some sort hence the name
 
         # should we prepend an extra :?
-        pat = "^" + delim
+        pat = "^" + re.escape(delim)
         prepend_delim = re.search(pat, value)
         value = re.sub(pat, "", value)
         # should we append an extra :?
-        pat = delim + "$"
+        pat = re.escape(delim) + "$"
         append_delim = re.search(pat, value)
         value = re.sub(pat, "", value)
 
@@ -1140,9 +1140,9 @@ class Action:
 
         npath = delim.join(npath)     # convert back to a string
 
-        if prepend_delim and not re.search(r"^%s" % delim, npath):
+        if prepend_delim and not npath.startswith(delim):
             npath = delim + npath
-        if append_delim and not re.search(r"%s$" % delim, npath):
+        if append_delim and not npath.endswith(delim):
             npath += delim
 
         if Eups.force and envVar in Eups.oldEnviron:
